@@ -384,7 +384,8 @@ fn main() {
     }
     // nesting at the limit: n nested tags, then an expression of depth m
     for n in 30usize..=44 {
-        for (kind, open, close) in [("if", "{% if a %}", "{% endif %}"), ("for", "{% for x in xs %}", "{% endfor %}"), ("filter", "{% filter upper %}", "{% endfilter %}"), ("set", "{% set v %}", "{% endset %}")] {
+        for (kind, open, close) in [("if", "{% if a %}", "{% endif %}"), ("for", "{% for x in xs %}", "{% endfor %}"), ("filter", "{% filter upper %}", "{% endfilter %}"), ("set", "{% set v %}", "{% endset %}"),
+            ("for-else", "{% for x in xs %}y{% else %}", "{% endfor %}"), ("if-else", "{% if a %}y{% else %}", "{% endif %}"), ("component-call", "{% <c> %}", "{% </c> %}")] {
             // parse() -> parse_until is level 1; each tag body one more; the innermost body may hold text only
             let src = format!("{}x{}", open.repeat(n), close.repeat(n));
             cases.push(Case { stream: "nesting", src, expect: Some(n + 1 <= 40), label: format!("{kind} x{n}") });
@@ -393,6 +394,48 @@ fn main() {
         }
         let src = format!("{}{{{{ {}a{} }}}}{}", "{% if a %}".repeat(n / 2), "(".repeat(n - n / 2), ")".repeat(n - n / 2), "{% endif %}".repeat(n / 2));
         cases.push(Case { stream: "nesting", src, expect: Some(n + 2 <= 40), label: format!("if x{} + parens x{}", n / 2, n - n / 2) });
+    }
+    // the for-else hole (finding: parse_for_loop pops its context before the else body, so extends /
+    // block / component definition are accepted there): model and engine are compared, no verdict pinned
+    for src in [
+        "hello{% for x in y %}a{% else %}{% extends \"p\" %}{% endfor %}",
+        "{% for x in y %}{% else %}{% extends \"p\" %}{% endfor %}{% extends \"q\" %}",
+        "{% for x in y %}a{% else %}{% block b %}z{% endblock %}{% endfor %}",
+        "{% for x in y %}a{% else %}{% component c() %}z{% endcomponent %}{% endfor %}",
+        "{% if a %}{% for x in y %}a{% else %}{% extends \"p\" %}{% endfor %}{% endif %}",
+        "{% for x in y %}{% for x in y %}a{% else %}{% break %}{% endfor %}{% endfor %}",
+        "{% for x in y %}a{% else %}{% break %}{% endfor %}",
+    ] {
+        cases.push(Case { stream: "nesting", src: src.to_string(), expect: None, label: "for-else body context".into() });
+    }
+    // nested blocks (distinct names)
+    for n in 30usize..=44 {
+        let open: String = (0..n).map(|i| format!("{{% block b{i} %}}")).collect();
+        let src = format!("{open}x{}", "{% endblock %}".repeat(n));
+        cases.push(Case { stream: "nesting", src, expect: Some(n + 1 <= 40), label: format!("block x{n}") });
+    }
+    // expression nesting that IS counted: right-nested `**`, parentheses, unary, kwargs, ternary, maps
+    for (n, ok) in [(5usize, true), (15, true), (60, false), (200, false)] {
+        let ex: Vec<(&str, String)> = vec![
+            ("pow chain", format!("1{}", " ** 1".repeat(n))),
+            ("parens", format!("{}a{}", "(".repeat(n), ")".repeat(n))),
+            ("unary minus parens", format!("{}a{}", "-(".repeat(n), ")".repeat(n))),
+            ("not parens", format!("{}a{}", "not (".repeat(n), ")".repeat(n))),
+            ("kwargs", format!("{}a{}", "f(x=".repeat(n), ")".repeat(n))),
+            ("filter kwargs", format!("{}a{}", "a | f(x=".repeat(n), ")".repeat(n))),
+            ("ternary", format!("{}a{}", "a if b else (".repeat(n), ")".repeat(n))),
+            ("maps", format!("{}a{}", "{\"k\": ".repeat(n), " }".repeat(n))),
+            ("binary right operand", format!("{}a{}", "1 + (".repeat(n), ")".repeat(n))),
+        ];
+        for (kind, e) in ex {
+            cases.push(Case { stream: "nesting", src: format!("{{{{ {e} }}}}"), expect: Some(ok), label: format!("expr {kind} x{n}") });
+            cases.push(Case { stream: "nesting", src: format!("{{% if {e} %}}{{% endif %}}"), expect: Some(ok), label: format!("expr {kind} x{n} in tag") });
+        }
+    }
+    // exact boundary of the counted expression nesting: model and engine must agree (no expectation)
+    for n in 30usize..=44 {
+        cases.push(Case { stream: "nesting", src: format!("{{{{ 1{} }}}}", " ** 1".repeat(n)), expect: None, label: format!("pow chain x{n}") });
+        cases.push(Case { stream: "nesting", src: format!("{{{{ {}a{} }}}}", "-(".repeat(n), ")".repeat(n)), expect: None, label: format!("unary parens x{n}") });
     }
     // chains that are NOT bounded by the depth counter (known finding F1): elif, operators, postfix
     for n in [1usize, 2, 10, 39, 40, 41, 100, 400, env.budget(800, 3000)] {
